@@ -189,7 +189,9 @@ func (b *exampleBuilder) buildExampleForArrayNode(node *internalSchema.ArrayNode
 		}
 
 		if ex == nil {
-			continue
+			// The items are matched by their position: the array ends where
+			// the recursion was cut.
+			break
 		}
 
 		if written != 0 {
